@@ -115,7 +115,7 @@ static std::string gen(const std::string &prop, uint64_t base, uint64_t idx, boo
 #else
     bool guard = idx % 5 == 3;
 #endif
-    line(strf("cfg tasks=%d sched=%s sseed=0x%llx layout=%s env=%d hw=%d thr=%d oom=%d loc=%d", ntasks, sched.c_str(), (unsigned long long)r.next(), guard ? "guard" : "packed", (int)((idx / 3) % 2), (int)(!guard && idx % 4 == 2), (int)(idx % 3 == 1), (int)(idx % 4 == 1), (int)(idx % 5 == 1)));
+    line(strf("cfg tasks=%d sched=%s sseed=0x%llx layout=%s env=%d hw=%d hws=%d thr=%d oom=%d loc=%d", ntasks, sched.c_str(), (unsigned long long)r.next(), guard ? "guard" : "packed", (int)((idx / 3) % 2), (int)(!guard && idx % 4 == 2), (int)(idx % 4 == 0), (int)(idx % 3 == 1), (int)(idx % 4 == 1), (int)(idx % 5 == 1)));
     int next_obj = 0;
     std::vector<std::string> objlines, calllines;  // (set-up calls come first in calllines)
     auto new_obj = [&](int task, size_t size, bool shared = false) {
@@ -374,6 +374,7 @@ struct World {
     // the running call: they see every store, whoever makes it - inline assembly, libc, a function opted out of instrumentation - and
     // also a store that writes back the value that was there (a read-modify-write of a neighbour loses the neighbour's concurrent update)
     bool hw = false;
+    bool hw_static = false;
     bool on_worker_thread = false;
     bool oom = false;             // allocations made by library code fail half of the time
     uint64_t oom_seed = 0;
@@ -550,9 +551,26 @@ static void hw_enter(int tid, const Obj &o, const Obj *dst) {
     w.pr_hw_armed++;
     hw_on(tid);
 }
+// In a quarter of the runs that do not watch objects, the debug registers guard the first 8 bytes of the library's .bss and .data instead
+// (on the unchanged tree there is none beyond the link-time markers): a store there that no callback announced - inline assembly that
+// increments and decrements a counter, say - changes nothing in the end and is invisible to every comparison.
+static void hws_enter(int tid) {
+    World &w = *W;
+    if (!w.hw_static || w.hw_failed || tid < 0) return;
+    World::HwWatch &h = w.hw_task[tid & 7];
+    h = World::HwWatch();
+    h.obj = -2;
+    auto b = sim::g_symtab.repo_bss(), d = sim::g_symtab.repo_data();
+    int k = 0;
+    if (b.hi > b.lo) { h.addr[k] = b.lo & ~(uint64_t)7; h.len[k] = 8; k++; }
+    if (d.hi > d.lo) { h.addr[k] = d.lo & ~(uint64_t)7; h.len[k] = 8; k++; }
+    if (!k) return;
+    w.pr_hw_armed++;
+    hw_on(tid);
+}
 static void hw_leave(int tid) {
     World &w = *W;
-    if (!w.hw || tid < 0) return;
+    if ((!w.hw && !w.hw_static) || tid < 0) return;
     hw_off();
     w.hw_task[tid & 7] = World::HwWatch();
 }
@@ -579,6 +597,7 @@ static void preempt_point(bool is_store, uintptr_t addr) {
         if (w.hw) hw_off();      // (the neighbours are somebody's own objects while that somebody runs)
         w.tasks.yield();
         if (w.hw) hw_on(t->id);
+        // (the static watch stays armed across switches: static storage is nobody's)
     }
     if (!is_store && arena_addr) w.last_load[t->id] = addr;
 }
@@ -958,7 +977,7 @@ static uint64_t do_call(const Call &c, bool &skipped) {
     int tid = w.tasks.cur() ? w.tasks.cur()->id : -1;  // -1: set-up phase (main context, not monitored)
     if (tid >= 0) w.in_shared_call[tid] = o->shared;
     Obj *hw_dst = nullptr;  // the object the call delivers its result into, if it is not the principal one
-    auto enter = [&] { errno = stale_errno(c); if (tid >= 0) { w.in_call[tid] = 1; w.call_steps[tid & 7] = 0; snprintf(w.cur_fn, sizeof w.cur_fn, "%s%s%s", c.fn.c_str(), c.fmt.empty() ? "" : ".", c.fmt.c_str()); hw_enter(tid, *o, hw_dst); } w.calls++; };
+    auto enter = [&] { errno = stale_errno(c); if (tid >= 0) { w.in_call[tid] = 1; w.call_steps[tid & 7] = 0; snprintf(w.cur_fn, sizeof w.cur_fn, "%s%s%s", c.fn.c_str(), c.fmt.empty() ? "" : ".", c.fmt.c_str()); hw_enter(tid, *o, hw_dst); hws_enter(tid); } w.calls++; };
     auto leave = [&] { if (tid >= 0) { hw_leave(tid); w.in_call[tid] = 0; } };
     // callers never hand a shared (read-only) object to a function that writes its argument
     if (tid >= 0 && o->shared && c.fn != "get" && c.fn != "vss_decode" && c.fn != "vss_pathlen" && c.fn != "can_paylen" && c.fn != "can_payoff") { skipped = true; return 0; }
@@ -1117,6 +1136,7 @@ static uint64_t do_call(const Call &c, bool &skipped) {
             total += 2 + L[i];
         }
         if (o->size < total) { skipped = true; return 0; }
+        if (n > 0) hw_dst = obj(c.objs2[(size_t)(c.obj + n) % (size_t)n]);  // (one of the destination strings is watched as well)
         enter(); res = drv_vss_strarr(o->p, src, lens, n, dst); leave();
         return res;
     }
@@ -1273,6 +1293,7 @@ static void exec(const std::string &text, bool verbose) {
             w.guard_layout = kv.str("layout", "packed") == "guard";
             w.env_on = kv.u64("env", 0);
             w.hw = kv.u64("hw", 0);
+            w.hw_static = !w.hw && kv.u64("hws", 0);
             w.on_worker_thread = kv.u64("thr", 0);
             w.oom = kv.u64("oom", 0);
             w.oom_seed = sseed ^ 0x00a110cULL;
@@ -1379,6 +1400,7 @@ static void exec(const std::string &text, bool verbose) {
     if (w.pr_env) g_res.counters["environment_lookups_by_library_code"] = w.pr_env;
     if (w.pr_libc_state) g_res.counters["libc_calls_with_state_object_by_library_code"] = w.pr_libc_state;
     if (w.pr_libc_dest) g_res.counters["libc_calls_writing_through_a_pointer_by_library_code"] = w.pr_libc_dest;
+    if (w.hw_static) g_res.counters[w.hw_failed ? "hw_watchpoints.unavailable" : "hw_watchpoints.runs_watching_static_storage"] = 1;
     if (w.hw) { g_res.counters[w.hw_failed ? "hw_watchpoints.unavailable" : "hw_watchpoints.runs"] = 1; g_res.counters["hw_watchpoints.calls_watched"] = w.pr_hw_armed; }
     if (w.oom) g_res.counters["cfg.library_allocations_may_fail"] = 1;
     if (w.pr_oom) g_res.counters["fault.library_allocation_failed"] = w.pr_oom;
@@ -1462,11 +1484,15 @@ static void fatal_handler(int sig, siginfo_t *si, void *uc) {
     if (W && sig == SIGTRAP && W->tasks.cur()) {
         int cur = W->tasks.cur()->id;
         const World::HwWatch &h = W->hw_task[cur & 7];
+        if (h.obj == -2) {
+            snprintf(what, sizeof what, " hw=task-%d-stored-to-the-library's-writable-static-storage-at-%p", cur, (void *)a);
+        } else {
         const Obj *o = nullptr;
         bool is_dst = h.obj_dst >= 0 && ((h.len[2] && a >= h.addr[2] && a < h.addr[2] + 8) || (h.len[3] && a >= h.addr[3] && a < h.addr[3] + 8));
         for (auto &x : W->objs) if (x.id == (is_dst ? h.obj_dst : h.obj)) o = &x;
         bool after = o && a >= (uintptr_t)o->p + o->size;
         snprintf(what, sizeof what, " hw=task-%d-stored-to-the-bytes-%s-object-%d(%zu-bytes)-of-its-call", cur, after ? "right-behind" : "right-before", o ? o->id : -1, o ? o->size : (size_t)0);
+        }
     }
     bool incall = W && W->tasks.cur() && W->in_call[W->tasks.cur()->id];
     if (sim::g_shm) snprintf(sim::g_shm->note, sizeof sim::g_shm->note, "pc=0x%llx signal=%d addr=0x%llx incall=%d call=%s%s", (unsigned long long)u->uc_mcontext.gregs[REG_RIP], sig,
